@@ -260,6 +260,17 @@ def cases(ctx):
         else:
             s = ''.join(rng.choice('0123456789.+-eEpxm%ct ') for _ in range(n))
         yield {'kind': 'string', 's': s}
+    for _ in range(ctx.budget(300, 20000)):
+        base = rng.choice(['0', '1', '12.5', '33.33', '99.99', '7', '100', '0.5'])
+        unit = rng.choice(UNIT_STR)
+        seq = [base + unit]
+        for _k in range(rng.randrange(1, 4)):
+            # same number up to the second decimal, another digit behind it
+            whole, _, frac = base.partition('.')
+            seq.append('%s.%s%s%s' % (whole, (frac + '00')[:2], rng.choice('0123456789')[:1] if rng.random() < 0.3 else '',
+                                      rng.choice(['1', '4', '04', '49', '001'])) + unit)
+        rng.shuffle(seq)
+        yield {'kind': 'string-sequence', 'seq': seq}
     # printing
     for _ in range(ctx.budget(3000, 200000)):
         r = rng.random()
@@ -302,7 +313,7 @@ def nontrivial(case):
         if ca == cb:
             return True
         return _leaf_distance(ca, cb) <= 1
-    if k in ('strings',):
+    if k in ('strings', 'string-sequence'):
         return True
     if k == 'string':
         return ref_parse_size(case['s']) is not None or any(u in case['s'] for u in UNIT_STR)
@@ -398,9 +409,13 @@ def check(case, ctx):
                 fails.append({'what': 'values that compare equal have different hashes',
                               'classes': [case['cls_a'], case['cls_b']]})
         return fails
-    if k in ('strings', 'string'):
+    if k in ('strings', 'string', 'string-sequence'):
         if k == 'string':
             it = [case['s']]
+        elif k == 'string-sequence':
+            # legal sizes that print alike (they differ beyond the second decimal), parsed one after the other
+            it = list(case['seq'])
+            ctx.count('strings_parsed_after_a_string_that_prints_alike', len(it))
         else:
             rest = case['length'] - len(case['prefix'])
             it = (case['prefix'][:n] + ''.join(t)
